@@ -12,6 +12,8 @@
                                                       `Evenio/Proofs/SlotMapGen.lean`)
   sparse_map.rs -> Evenio/Generated/SparseMapGen.lean (`SparseMap::{get, insert, remove}`, same translator;
                                                       `Evenio/Proofs/SparseMapGen.lean`)
+  handler.rs  -> Evenio/Generated/HandlerConfigGen.lean (the nine setters of `HandlerConfig`, same translator;
+                                                      `Evenio/Proofs/HandlerConfigGen.lean`)
   entity.rs   -> Evenio/Generated/EntityGen.lean      (`ReservedEntities::{reserve, spawn_all, refresh}`, `Entities::add_with`,
                                                       same translator, calling the functions of SlotMapGen;
                                                       `Evenio/Proofs/EntityGen.lean`)
@@ -625,6 +627,37 @@ def extract_entity():
                        ["Entities.add_with", "reserve", "spawn_all", "refresh"])
 
 
+def extract_handler_config():
+    """handler.rs: the nine setters of `HandlerConfig`; the struct is emitted as a Lean structure whose field types are the
+    world model's (`ReceivedEventId` = `Option (Option (EvTy × Key))`, `MaybeInvalidAccess` = `Option Access`, `BitSet<_>` =
+    sorted `List Nat`); `Access::join`, `ComponentAccess::and`, `BitSet::insert` are taken as the hand model's `Access.join`,
+    `CA.and`, `sortedInsert` (`Evenio/Proofs/HandlerConfigGen.lean` ties the setters to `Config.setRecv` / `setRecvAccess` /
+    `setFilter` and to the record updates of `initParam`)."""
+    return run_rs2lean("src/handler.rs",
+                       ["HandlerConfig", "set_priority", "set_received_event", "set_received_event_access",
+                        "set_targeted_event_component_access", "insert_sent_global_event", "insert_sent_targeted_event",
+                        "set_event_queue_access", "push_component_access", "insert_referenced_components",
+                        "--namespace", "Evenio.Gen.HandlerConfig",
+                        "--import", "Evenio.Generated.Rs2LeanPrelude", "--import", "Evenio.Generated.Rs2LeanConfig",
+                        "--open", "Evenio.Rs2Lean", "--struct", "HandlerConfig",
+                        "--type", "HandlerPriority=Evenio.Priority",
+                        "--type", "ReceivedEventId=Option (Option (Evenio.EvTy × Evenio.Key))",
+                        "--type", "MaybeInvalidAccess=Option Evenio.Access", "--type", "ComponentAccess=Evenio.CA",
+                        "--type", "BitSet=List Nat", "--type", "Access=Evenio.Access",
+                        "--type", "EventId=Evenio.EvTy × Evenio.Key",
+                        "--type", "GlobalEventIdx=Nat", "--type", "TargetedEventIdx=Nat", "--type", "ComponentIdx=Nat",
+                        "--variant", "ReceivedEventId::None=none", "--variant", "ReceivedEventId::Ok=some (some $1)",
+                        "--variant", "ReceivedEventId::Invalid=some none",
+                        "--variant", "MaybeInvalidAccess::Ok=some $1", "--variant", "MaybeInvalidAccess::Invalid=none",
+                        "--prim", "Access::join(self, Access) -> Option<Access>=Evenio.Access.join",
+                        "--prim", "ComponentAccess::and(&self, &ComponentAccess) -> ComponentAccess=Evenio.CA.and",
+                        "--prim", "ComponentAccess::or(&self, &ComponentAccess) -> ComponentAccess=Evenio.CA.or",
+                        "--prim", "BitSet::insert(&mut self, _) -> bool=Evenio.Rs2Lean.setInsert"],
+                       ["set_priority", "set_received_event", "set_received_event_access",
+                        "set_targeted_event_component_access", "insert_sent_global_event", "insert_sent_targeted_event",
+                        "set_event_queue_access", "push_component_access", "insert_referenced_components"])
+
+
 def main():
     status_path = None
     if "--status" in sys.argv:
@@ -633,7 +666,8 @@ def main():
     status = {}
     for name, fn in [("AccessTables", extract_access), ("Gates", extract_gates), ("Sites", extract_sites),
                      ("HandlerListGen", extract_funcs), ("SlotMapGen", extract_slot_map),
-                     ("SparseMapGen", extract_sparse_map), ("EntityGen", extract_entity)]:
+                     ("SparseMapGen", extract_sparse_map), ("EntityGen", extract_entity),
+                     ("HandlerConfigGen", extract_handler_config)]:
         target = os.path.join(OUT, name + ".lean")
         fallback = os.path.join(OUT, name + ".lean.fallback")
         old = open(target).read() if os.path.exists(target) else None
